@@ -52,6 +52,27 @@ def herbrand(I, name, recv, args, kwargs):
     return VElem(sym.user_func(fname, len(items))(*items))
 
 
+def canonical(I, qual, args, kwargs):
+    """positional arguments of a call to a repository function are renamed to keyword arguments after the callee's signature, so
+    that f(a, b) and f(a, y=b) are the same Herbrand term (passing an argument by position or by keyword is not a change)"""
+    try:
+        rel, node = I.index.function(qual)
+    except KeyError:
+        return list(args), dict(kwargs)
+    params = [p.arg for p in node.args.posonlyargs + node.args.args]
+    if params and params[0] in ('self', 'cls'):
+        params = params[1:]
+    if len(args) > len(params) or any(isinstance(a, tuple) for a in args):
+        return list(args), dict(kwargs)
+    kw = dict(kwargs)
+    for p, a in zip(params, args):
+        if p in kw:
+            return list(args), dict(kwargs)
+        kw[p] = a
+    # defaults that are spelled out explicitly equal to the default are NOT normalised away (kept as given)
+    return [], kw
+
+
 class Wire(Contract):
     """cls.method run with symbolic parameters and self-fields; `expect` is the prescribed result term (specification text)."""
     file = DF
@@ -100,6 +121,7 @@ class Wire(Contract):
         def call_default(I, kind, name, recv, args, kwargs):
             if kind == 'function':
                 # a method of the class under contract: recorded under its simple name, the receiver is part of the term
+                args, kwargs = canonical(I, name, args, kwargs)
                 name = 'self.' + name.split('.')[-1]
             elif kind == 'method':
                 name = '.' + name.split('.')[-1]
@@ -115,7 +137,12 @@ class Wire(Contract):
             recv = None
             if n.startswith('self.') or n.startswith('.'):
                 recv, args = args[0], args[1:]
-            return herbrand(I, n, recv, list(args), kwargs)
+            args = list(args)
+            if n.startswith('self.'):
+                m = I.index.find_method(self.cls, n[5:])
+                if m is not None:
+                    args, kwargs = canonical(I, m[0], args, kwargs)
+            return herbrand(I, n, recv, args, kwargs)
 
         def op_(I, opname, a, b):
             return VElem(sym.user_func('op:' + opname.s, 2)(_elem(I, a), _elem(I, b)))
